@@ -57,8 +57,20 @@ def raw (m : Mode) (file : Array Word) (offset : Nat) : Outcome View :=
     let mo ← subM m d.offset 1
     return ⟨mo, d.mapLen + 1, len, d.payload⟩
 
-/-- `IntVectorMapper::new` — note `offset + 1` is evaluated before any range test -/
-def int (m : Mode) (file : Array Word) (offset : Nat) : Outcome (View × Nat) := do
+/-- `IntVectorMapper::new` as first coded: `offset + 1` evaluated before any range test (finding F11) -/
+def intOld (m : Mode) (file : Array Word) (offset : Nat) : Outcome (View × Nat) := do
+  let o1 ← addM m offset 1
+  if o1 ≥ file.size then fault (.err .eof) else do
+    let len ← fileAt file offset
+    let width ← fileAt file (offset + 1)
+    let o2 ← addM m offset 2
+    let d ← raw m file o2
+    let mo ← subM m d.offset 2
+    return (⟨mo, d.mapLen + 2, len, d.payload⟩, width)
+
+/-- `IntVectorMapper::new` (repaired): `offset >= len || offset + 1 >= len` -/
+def int (m : Mode) (file : Array Word) (offset : Nat) : Outcome (View × Nat) :=
+  if offset ≥ file.size then fault (.err .eof) else do
   let o1 ← addM m offset 1
   if o1 ≥ file.size then fault (.err .eof) else do
     let len ← fileAt file offset
